@@ -70,56 +70,69 @@ def body_features(b, acc=None, pos='top'):
     return acc
 
 
-def run(prop, tier, knobs_fn, n_quick, n_thorough, rule, sched_mode='all', nontrivial='answers',
-        post_case=None, queries_per_prog=3):
+_CFG = {}
+
+
+def configure(prop, **kw):
+    _CFG[prop] = kw
+
+
+def case(rep, drv, rnd, i, tier):
+    cfg = _CFG[rep.prop]
+    g = gen.ProgGen(rnd, cfg['knobs'](rnd))
+    prog = g.program()
+    ops = [('load', 'overwrite', prog)]
+    qs = g.queries(cfg.get('queries_per_prog', 3))
+    for name, args in qs:
+        ops.append(('query', name, ('all',), args))
+    if cfg.get('sched_mode') == 'abandon':
+        # every abandonment point of every query, by close(), by dropping and by a raising consumer
+        try:
+            res = drv.ask(R.scenario_model(ops, 'reference'))[1:]
+        except common.ModelTimeout:
+            rep.count('model-budget-exceeded-skipped')
+            return
+        extra = []
+        for (name, args), r in zip(qs, res[1:]):
+            na = min(scen.count_answers(r), 12)
+            for k in range(0, na + 1):
+                how = rnd.choice(['close', 'drop'])
+                extra.append(('query', name, ('stop', k), args, how))
+                if k >= 1 and rnd.random() < 0.5:
+                    extra.append(('query', name, ('raise', k), args))
+                    rep.count('consumer-raises')
+                rep.count('abandon-points')
+            # and the same query again: the answers must be the same as the first time
+            extra.append(('query', name, ('all',), args))
+        ops = ops + extra
+    v = scen.three_way(rep, drv, ops, 'case %d' % i)
+    rep.count('programs')
+    feats = set()
+    for c in prog:
+        feats |= body_features(c[2])
+    for f in feats:
+        rep.count('feature:' + f)
+    if v in ('ok', 'model'):
+        try:
+            res = drv.ask(R.scenario_model(ops, 'reference'))[1:]
+        except common.ModelTimeout:
+            res = []
+        for op, r in zip(ops, res):
+            if op[0] == 'query' and op[2][0] == 'all':
+                na = scen.count_answers(r)
+                rep.count('answers=%s' % (na if na < 3 else '3+'))
+                if na >= 1:
+                    rep.nontriv(scen.norm([S.program_text(prog), op[1], op[3]]))
+    if i < 3:
+        rep.sample({'prolog': S.program_text(prog), 'queries': [scen.norm([o[1], list(o[2])] + list(o[3])) for o in ops[1:8]]})
+
+
+def run(prop, tier, knobs_fn, n_quick, n_thorough, rule, sched_mode='all', queries_per_prog=3):
+    from . import par
     n = n_quick if tier == 'quick' else n_thorough
+    configure(prop, knobs=knobs_fn, sched_mode=sched_mode, queries_per_prog=queries_per_prog)
     with Check(prop, tier) as chk:
-        rep = chk.rep
-        rnd = common.rng_for(prop)
-        for i in range(n):
-            g = gen.ProgGen(rnd, knobs_fn(rnd))
-            prog = g.program()
-            ops = [('load', 'overwrite', prog)]
-            qs = g.queries(queries_per_prog)
-            for name, args in qs:
-                ops.append(('query', name, ('all',), args))
-            if sched_mode == 'abandon':
-                # every abandonment point of every query, by close(), by dropping and by a raising consumer
-                res = chk.drv.ask(R.scenario_model(ops, 'reference'))[1:]
-                extra = []
-                for (name, args), r in zip(qs, res[1:]):
-                    na = min(scen.count_answers(r), 12)
-                    for k in range(0, na + 1):
-                        how = rnd.choice(['close', 'drop'])
-                        extra.append(('query', name, ('stop', k), args, how))
-                        if k >= 1 and rnd.random() < 0.5:
-                            extra.append(('query', name, ('raise', k), args))
-                            rep.count('consumer-raises')
-                        rep.count('abandon-points')
-                    # and the same query again: the answers must be the same as the first time
-                    extra.append(('query', name, ('all',), args))
-                ops = ops + extra
-            v = scen.three_way(rep, chk.drv, ops, 'case %d' % i)
-            rep.count('programs')
-            feats = set()
-            for c in prog:
-                feats |= body_features(c[2])
-            for f in feats:
-                rep.count('feature:' + f)
-            if v in ('ok', 'model'):
-                res = chk.drv.ask(R.scenario_model(ops, 'reference'))[1:]
-                for op, r in zip(ops, res):
-                    if op[0] == 'query' and op[2][0] == 'all':
-                        na = scen.count_answers(r)
-                        rep.count('answers=%s' % (na if na < 3 else '3+'))
-                        if na >= 1:
-                            rep.nontriv(scen.norm([S.program_text(prog), op[1], op[3]]))
-            if post_case:
-                post_case(chk, rep, rnd, prog, qs, i)
-            if i < 3:
-                rep.sample({'prolog': S.program_text(prog), 'queries': [scen.norm([o[1], list(o[2])] + list(o[3])) for o in ops[1:8]]})
-            if len(rep.violations) >= 3:
-                break
+        par.run_cases(chk.rep, 'harness.progcheck', 'case', n)
         chk.finish(rule=rule)
 
 
